@@ -291,6 +291,46 @@ def fill(claim, na):
         "Trusted: constructor invariant (stored atoms lie inside the grid).",
         "DESIGN.md section 2, C14",
     )
-    for p in ["C08", "C08", "C09",
-              "C11", "C15", "C16", "C19"]:
+    claim(
+        "C08",
+        "exhaustive abstract evaluation of the comparison-only trace selectors over all weak "
+        "orderings of their arguments (order-type domain) + flag-dispatch, state-mask and stencil "
+        "agreement between fill functions and traceback (custom ast analysis on lowered Cython)",
+        "NARROW. Decides trace-cell selection and traceback dispatch, which are necessary for "
+        "'returned score = recomputed score', 'results are the co-optimal set' and 'at most "
+        "max_number': get_trace_linear (13 weak orderings) and get_trace_affine (13 x 3 x 3) use "
+        "their scores only in comparisons and under every ordering set exactly the arg-max flags "
+        "and store the maximum; follow_trace tests every flag, steps for A_TO_B to B's predecessor "
+        "cell and continues in state A, state masks are the *_TO_state flags, flags are distinct "
+        "bits, each extra trace is budgeted and continues on a copy; the cells and tables the fill "
+        "functions read for each selector argument are the traceback's predecessor cells and the "
+        "source state's table, argument order matches the selector's parameters; local mode "
+        "clears exactly the flags of a non-positive table; boundary flags, start states, reported "
+        "score and max_number validation/budget/truncation. NOT decided: optimality of the "
+        "recurrences, initial values, sentinel arithmetic, free terminal gaps.",
+        "Trusted: Cython lowering; parameter-name/flag-name correspondence (x_score <-> X).",
+        "DESIGN.md section 2, C08",
+    )
+    claim(
+        "C09",
+        "stencil agreement of banded and X-drop fill functions, linear-form comparison of band "
+        "index transformations, swap pairing, seed containment, control dependence (CFG) of "
+        "direction-specific work, score-only non-interference by def-use, normalised sibling "
+        "comparison (custom ast analysis on lowered Cython)",
+        "NARROW. Decides: the banded fill functions read the band-straightened predecessor cells "
+        "(diag (i-1,j), left (i,j-1), top (i-1,j+1)) of the right tables in selector-parameter "
+        "order; the band column used when filling and the sequence position used when tracing are "
+        "inverse linear forms; exactly the diagonals lower..upper inside the table are visited; "
+        "swapping the sequences negates the band, transposes the matrix and flips the returned "
+        "trace; band clipping, banded traceback arguments, start states; for the seeded aligners "
+        "every assembled trace contains the seed, upstream/downstream work is control-dependent "
+        "on its flag and uses the reversed-prefix/suffix slices, in score-only mode each score is "
+        "the maximum of exactly the candidates the selector compares and nothing but the trace "
+        "depends on score_only, both modes report the same variable; the two ungapped extension "
+        "loops are identical. NOT decided: the upper bound by the optimum, band containment as a "
+        "value property, X-drop pruning.",
+        "Trusted: as C08.",
+        "DESIGN.md section 2, C09",
+    )
+    for p in ["C11", "C15", "C16", "C19"]:
         na(p, PENDING)
